@@ -3,6 +3,7 @@ package interpreter
 import (
 	"fmt"
 	"math"
+	"reflect"
 	"strconv"
 
 	"github.com/ah-naf/borno/ast"
@@ -850,6 +851,20 @@ func isTruthy(value interface{}) bool {
 }
 
 func isEqual(a, b interface{}) bool {
+	// Arrays and objects are references: equal only to themselves.
+	// (Comparing two slices or two maps with == panics in Go.)
+	switch x := a.(type) {
+	case []interface{}:
+		y, ok := b.([]interface{})
+		return ok && len(x) == len(y) && (len(x) == 0 || &x[0] == &y[0])
+	case map[string]interface{}:
+		y, ok := b.(map[string]interface{})
+		return ok && reflect.ValueOf(x).Pointer() == reflect.ValueOf(y).Pointer()
+	}
+	switch b.(type) {
+	case []interface{}, map[string]interface{}:
+		return false
+	}
 	return a == b
 }
 
